@@ -14,6 +14,8 @@
 (*   [op |-> "add_graph_direct", g, labels]   [op |-> "del_graph", g]      *)
 (*   [op |-> "del_all"]   [op |-> "add_blank", g, label]                   *)
 (*   [op |-> "extract", g]                                                 *)
+(* and, on top of the store, the property graph's delete_node              *)
+(*   [op |-> "del_node", g, label]  - one step, WITHOUT the lock (as coded) *)
 (***************************************************************************)
 EXTENDS FimStoreSeq
 
@@ -64,7 +66,7 @@ Entry(o) == CASE o.op \in {"add_graph", "add_graph_direct"} -> "read"
               [] o.op = "extract"   -> "copy"
 
 Call(t) == /\ pc[t] = "call"
-           /\ Goto(t, "acq")
+           /\ Goto(t, IF Op(t).op = "del_node" THEN "delnode" ELSE "acq")
            /\ rels' = [rels EXCEPT ![t] = 0] /\ acqs' = [acqs EXCEPT ![t] = 0]
            /\ UNCHANGED <<lock, ctr, nodes, ip, loc, lost, lockerr>>
 
@@ -154,6 +156,17 @@ DAdd(t) == /\ pc[t] = "add" /\ Backend = "disjoint"
            /\ Goto(t, "rel")
            /\ UNCHANGED <<lock, ip, loc, rels, acqs, lockerr>>
 
+\* ---- delete_node: removes the stored node carrying the label (nothing to do when there is none: the call raises)
+DelNode(t) == /\ pc[t] = "delnode"
+              /\ LET o == Op(t) IN
+                   nodes' = IF Backend = "shared"
+                            THEN Without(nodes, {i \in SNodesOf(o.g) : nodes[i].label = o.label})
+                            ELSE IF o.g \in DOMAIN nodes
+                                 THEN Put(nodes, o.g, Without(nodes[o.g], {i \in DOMAIN nodes[o.g] : nodes[o.g][i] = o.label}))
+                                 ELSE nodes
+              /\ Goto(t, "ret")
+              /\ UNCHANGED <<lock, ctr, ip, loc, rels, acqs, lost, lockerr>>
+
 \* ---- exception path: finally releases ------------------------------------------------------------------------
 Raise(t) == /\ pc[t] = "raise"
             /\ Goto(t, "rel")
@@ -167,13 +180,13 @@ Release(t) == /\ pc[t] = "rel"
               /\ UNCHANGED <<ctr, nodes, ip, loc, acqs, lost>>
 
 Return(t) == /\ pc[t] = "ret"
-             /\ lockerr' = (lockerr \/ rels[t] # 1 \/ acqs[t] # 1 \/ (UseLock /\ lock = t))
+             /\ lockerr' = (lockerr \/ (Op(t).op # "del_node" /\ (rels[t] # 1 \/ acqs[t] # 1)) \/ (UseLock /\ lock = t))
              /\ IF ip[t] = Len(Scripts[t]) THEN Goto(t, "done") /\ ip' = ip
                 ELSE Goto(t, "call") /\ ip' = [ip EXCEPT ![t] = @ + 1]
              /\ UNCHANGED <<lock, ctr, nodes, loc, rels, acqs, lost>>
 
 Step(t) == \/ Call(t) \/ Acquire(t) \/ SRead(t) \/ Validate(t) \/ SDelete(t) \/ SBump(t) \/ SAdd(t) \/ SCopy(t)
-           \/ DRead(t) \/ DBump(t) \/ DDelete(t) \/ DAdd(t) \/ Raise(t) \/ Release(t) \/ Return(t)
+           \/ DRead(t) \/ DBump(t) \/ DDelete(t) \/ DAdd(t) \/ DelNode(t) \/ Raise(t) \/ Release(t) \/ Return(t)
 
 Next == \E t \in Threads : Step(t)
 Spec == Init /\ [][Next]_vars /\ \A t \in Threads : WF_vars(Step(t))
@@ -194,7 +207,7 @@ NoDuplicateInternalId == ~lost
 \* each graph ends up with exactly the nodes added to it: the final content is one a sequential execution produces
 Linearizable == AllDone => Content \in SeqOutcomes(Backend, Scripts, [t \in Threads |-> 1], <<>>)
 \* mutual exclusion of the critical sections
-MutualExclusion == UseLock => Cardinality({t \in Threads : pc[t] \notin {"call", "acq", "ret", "done"}}) <= 1
+MutualExclusion == UseLock => Cardinality({t \in Threads : pc[t] \notin {"call", "acq", "ret", "done", "delnode"}}) <= 1
 \* no thread blocks forever
 Termination == <>AllDone
 =============================================================================
